@@ -35,9 +35,15 @@ PROPS = {
             "penalty_zero_when_unlocked", "penalty_open_full_duration", "penaltySplit_ok",
             "penalty_le_90pct", "split_accounted", "split_all_to_collector_when_no_active_farm",
             "split_all_to_collector_when_share_rounds_to_zero", "owner_share_is_half",
+            "MantraDex.C09Sys.emergency_withdraw_tx_effect", "MantraDex.C09Sys.uniqueOwners_nodup",
         ],
+        "extra_modules": ["MantraDex.Properties.C09Sys"],
         "streams": {"farmmath": (6000, 300000), "fm_hist": (60, 3000)},
-        "what": "emergency penalty rate = min(90%, base (x) remaining/duration (x) weight/amount) with 18-digit floors; <= 90% (from the "
+        "what": "THROUGH THE RUNTIME (C09Sys.emergency_withdraw_tx_effect): an accepted emergency withdrawal is signed by the position's owner, deletes the "
+                "position, leaves farms and the pool manager untouched, and moves EXACTLY: amount - penalty to the owner, the same share to every distinct owner of "
+                "a currently active farm on that LP token (active = started and not expired, as the handler selects them), the rest of the penalty to the fee "
+                "collector, all out of the farm manager, which pays at most the recorded amount; nobody else's balance changes (one additive Int formula covering "
+                "every aliasing of the parties). Handler level: emergency penalty rate = min(90%, base (x) remaining/duration (x) weight/amount) with 18-digit floors; <= 90% (from the "
                 "generated MAX_PENALTY_CAP); antitone in time after closing; zero once unlocked; fee = floor(amount*rate) < amount and <= 90%; "
                 "owner payout + fee collector + n*per-owner share <= recorded amount, = amount - dust with dust < n; all to the fee collector "
                 "when there is no active farm or the per-owner share rounds to zero",
@@ -50,14 +56,21 @@ PROPS = {
             "weight_le_16x", "weight_mono_amount", "weight_mono_duration", "weight_superadditive", "curve_anchor_points",
             "MantraDex.C10H.latest_after_set", "MantraDex.C10H.update_weights_same_delta", "MantraDex.C10H.update_weights_covered_partial",
             "MantraDex.C10H.update_weights_covered_counterexample", "MantraDex.C10H.reconcile_clears",
+            "MantraDex.C10Sys.winv_step", "MantraDex.C10Sys.winv_init", "MantraDex.C10Sys.weights_covered_reachable",
         ],
-        "extra_modules": ["MantraDex.Properties.C10H"],
+        "extra_modules": ["MantraDex.Properties.C10H", "MantraDex.Properties.C10Sys"],
         "streams": {"farmmath": (6000, 300000), "fm_hist": (60, 3000)},
         "what": "weight curve: weight >= amount, <= 16*amount (multiplier at one year evaluated from the generated coefficients), "
                 "monotone in amount and duration, super-additive in amount (source of F-07); update_weights moves the user's and the "
                 "contract's latest weight by the same delta at epoch+1 (close: min(w, user weight), after the F-07 fix), so the total keeps covering "
                 "any set of users that contains every closer (the version without that side condition is refuted by a proved counterexample); "
-                "a user without open positions has no weight history / cursor",
+                "a user without open positions has no weight history / cursor. THROUGH THE RUNTIME (C10Sys): in every state reachable by account-signed "
+                "transactions (nested pool-manager locks, replies, rollbacks, injected faults), for every LP token, EVERY epoch and any set of distinct users, the "
+                "total's weight in effect (Spec.weightAt of the farm manager's own history) is at least the sum of the users' weights in effect, and a user without an "
+                "open position in an LP token has an empty weight history for it (winv_step, winv_init, weights_covered_reachable)",
+        "assumptions": ["C10Sys holds while the epoch configuration (epoch manager config and the farm manager's pointer to it) is unchanged, block time stays within u64 "
+                        "nanoseconds and the farm manager's pool_manager pointer is the pool manager (hypotheses EpochStable / hstable): re-basing epochs is an owner action "
+                        "after which epoch ids restart"],
     },
 
     "C01": {
@@ -85,8 +98,9 @@ PROPS = {
         "module": "MantraDex.Properties.C14", "ns": "MantraDex.C14",
         "theorems": ["single_refused_on_empty_or_larger_pool", "single_cannot_lock_for_other", "multi_cannot_lock_for_other",
                      "lock_into_position_requires_ownership", "first_leg_shape", "reply_shape", "buffer_only_set_by_first_leg",
-                     "MantraDex.C14Eq.single_asset_equals_two_step_partial"],
-        "extra_modules": ["MantraDex.Properties.C14Eq"],
+                     "MantraDex.C14Eq.single_asset_equals_two_step_partial",
+                     "MantraDex.C15Sys.positions_change_only_by_owner_tx_partial", "MantraDex.C15Sys.new_positions_belong_to_signer_partial"],
+        "extra_modules": ["MantraDex.Properties.C14Eq", "MantraDex.Properties.C15Sys"],
         "streams": {"pm_hist": (80, 4000), "twin": (60, 3000), "faults": (30, 1500)},
         "what": "single-asset deposits are refused on empty / larger pools; neither path can lock LP for someone other than the sender and an existing "
                 "position must belong to the receiver; first leg = simulate, buffer (expected balances, options), swap exactly floor(a/2) via a "
@@ -107,14 +121,24 @@ PROPS = {
                      "fm_update_config_requires_owner", "fm_privileged_nonpayable", "expand_farm_requires_farm_owner",
                      "close_farm_requires_farm_or_contract_owner", "close_position_requires_owner", "withdraw_position_requires_owner",
                      "expand_position_requires_owner_or_pm", "create_for_other_requires_pm", "em_privileged_requires_owner_and_no_funds",
-                     "fc_only_ownership_no_funds"],
+                     "fc_only_ownership_no_funds",
+                     "MantraDex.C15Sys.pm_privileged_frame", "MantraDex.C15Sys.fm_privileged_frame", "MantraDex.C15Sys.em_privileged_frame",
+                     "MantraDex.C15Sys.fc_privileged_frame", "MantraDex.C15Sys.positions_change_only_by_owner_tx_partial",
+                     "MantraDex.C15Sys.new_positions_belong_to_signer_partial", "MantraDex.C15Sys.farms_change_only_by_authorised_tx",
+                     "MantraDex.C15Sys.second_leg_receiver_defaults_to_pm"],
+        "extra_modules": ["MantraDex.Properties.C15Sys"],
         "streams": {"auth": (1, 1), "pm_hist": (40, 2000), "fm_hist": (40, 2000)},
         "what": "ownership moves only when the pending owner accepts before expiry or the owner renounces; transfer/renounce need the owner; a renounced "
                 "contract rejects every ownership action; on all four contracts config/ownership messages need the owner (resp. pending owner) and no "
                 "funds, non-privileged messages never change config or ownership; farm expansion needs the farm owner, farm closing the farm owner or "
                 "the contract owner; closing/withdrawing a position needs its owner, expanding the owner or the pool manager, creating for someone else "
                 "the pool manager. The auth stream enumerates the complete matrix ownership state x contract x variant x sender role x funds on the "
-                "implementation (exhaustive: 900 combinations)",
+                "implementation (exhaustive: 900 combinations). THROUGH THE RUNTIME (C15Sys): whatever a transaction contains (nested calls, replies, rollbacks, faults), "
+                "the configuration, ownership and per-pool switches of the pool manager / the configuration and ownership of the farm manager / the epoch manager's state / the fee "
+                "collector's ownership change only if the transaction IS a privileged message sent directly to that contract with no funds by its owner (or, for accept, the pending "
+                "owner); a position is exactly as it was after any transaction not signed by its owner and every new position belongs to the signer (the pool manager acts only for the "
+                "signer's own deposit; _partial: the signer's address passes addr_validate, as every chain signer's does - without it a kernel-checked counterexample exists); a farm "
+                "changes only by its owner's ExpandFarm, an authorised CloseFarm, claims (claimed grows) or auto-close after expiry",
     },
     "C16": {
         "module": "MantraDex.Properties.C16", "ns": "MantraDex.C16",
@@ -247,8 +271,9 @@ PROPS = {
         "module": "MantraDex.Properties.C08", "ns": "MantraDex.C08",
         "theorems": ["normal_withdraw_requires_unlock", "normal_withdraw_pays_exact", "emergency_after_unlock_is_normal", "close_sets_expiry",
                      "partial_close_splits", "expand_adds_exact", "others_cannot_touch_position", "create_position_identifier",
-                     "MantraDex.C08Sys.withdraw_after_unlock", "MantraDex.C08Sys.withdraw_before_unlock_refused"],
-        "extra_modules": ["MantraDex.Properties.C08Sys"],
+                     "MantraDex.C08Sys.withdraw_after_unlock", "MantraDex.C08Sys.withdraw_before_unlock_refused",
+                     "MantraDex.C15Sys.positions_change_only_by_owner_tx_partial", "MantraDex.C15Sys.new_positions_belong_to_signer_partial"],
+        "extra_modules": ["MantraDex.Properties.C08Sys", "MantraDex.Properties.C15Sys"],
         "streams": {"fm_hist": (80, 4000)},
         "what": "a non-emergency withdrawal is accepted only from the owner, for a closed position whose unlock instant (close time + unlocking "
                 "duration, boundary second included) is reached, pays exactly the recorded amount and deletes the position; an emergency request after "
@@ -283,13 +308,25 @@ PROPS = {
     "C11": {
         "module": "MantraDex.Properties.C11", "ns": "MantraDex.C11",
         "theorems": ["farm_asset_exact", "farm_fee_messages", "create_farm_records_partial", "expand_farm_exact", "close_farms_refunds",
-                     "farms_per_lp_le_max_partial", "max_farms_never_decreases"],
+                     "farms_per_lp_le_max_partial", "max_farms_never_decreases",
+                     "MantraDex.C11Sys.close_farm_tx_effect", "MantraDex.C11Sys.expand_farm_tx_effect", "MantraDex.C11Sys.create_farm_tx_effect_partial",
+                     "MantraDex.C11Sys.farm_ids_nodup_step", "MantraDex.C11Sys.max_farms_mono_step", "MantraDex.C11Sys.farm_limit_step_partial",
+                     "MantraDex.C11Sys.farm_limit_reachable_final", "MantraDex.C11Sys.farm_limit_reachable_partial", "MantraDex.C11Sys.farm_limit_reachable_inv",
+                     "MantraDex.C15Sys.farms_change_only_by_authorised_tx"],
+        "extra_modules": ["MantraDex.Properties.C11Sys", "MantraDex.Properties.C15Sys"],
         "streams": {"fm_hist": (80, 4000)},
         "what": "create_farm takes exactly the reward (+ fee coin when a non-zero fee is due; one coin of reward+fee in the same denom), refunds a fee "
                 "overpayment and sends exactly the fee to the collector; records the full reward as budget, claimed 0, sender as owner, rate = "
                 "floor(reward/(end-start)), start > current epoch within the buffer; expand adds exactly the attached multiple of the rate and extends "
                 "the end by amount/rate, only before the end; closing refunds exactly funded-claimed to the farm owner and nobody else; farms per LP "
-                "token never exceed the configured maximum (for max <= 100, F-12); the maximum can only be raised",
+                "token never exceed the configured maximum (for max <= 100, F-12); the maximum can only be raised. THROUGH THE RUNTIME (C11Sys): exact bank effect of "
+                "whole farm transactions - CloseFarm (only the farm's owner or the contract owner; the farm disappears, nothing else changes; the owner receives exactly "
+                "funded - claimed from the farm manager, or, if that transfer is made to fail, nothing moves and the farm is still closed), ExpandFarm (only the owner; exactly "
+                "the attached amount moves into the farm's budget, end + amount/rate), CreateFarm when no expired farm is closed on the way (creator pays exactly reward + fee "
+                "net of the refund, the farm manager keeps exactly the reward, the fee collector gets exactly the fee; _partial: auto-close excluded); in every reachable state "
+                "farm identifiers are unique, the maximum never decreases and no LP token has more farms than the maximum (farm_limit_reachable_*; the version without unique "
+                "identifiers is refuted by a proved counterexample); a farm keeps owner, parameters and budget unless the transaction is its owner's ExpandFarm, a CloseFarm by "
+                "its owner / the contract owner, or somebody's CreateFarm after it expired (C15Sys.farms_change_only_by_authorised_tx)",
         "assumptions": ["create_farm_records needs: no expired farm of the LP token carries the new identifier (it would be closed and its id reused in the same call — noted, harmless)",
                         "F-12: with max_concurrent_farms > MAX_FARMS_LIMIT (100) the limit check only sees 100 farms; proved under max <= 100"],
     },
